@@ -163,8 +163,21 @@ package testscript
 // applyScriptUpdates: the number, order and names of the archive's entries are
 // unchanged; an entry whose name has no recorded update keeps its data; the script
 // file is rewritten once, with the formatted archive (the comment is not touched).
+// Abstract view of quoting used here (txtar's own contracts, C14, say what these are):
+// every entry whose name has a recorded update receives that content, quoted iff it needs quoting.
+//@ pure func needsQuoteS(c int) bool
+//@ pure func quoteS(c int) int
+//@ pure func updOK(d int, c int) bool = needsQuoteS(c) ? d == quoteS(c) : d == c
+//@ extern github.com/rogpeppe/go-internal/txtar.NeedsQuote(data) (r)
+//@   pure
+//@   ensures r == needsQuoteS(sid(data))
+//@ extern github.com/rogpeppe/go-internal/txtar.Quote(data) (r, err)
+//@   modifies new bytes
+//@   ensures err == nil ==> sid(r) == quoteS(sid(data)) && fresh(r)
 //@ func (*TestScript).applyScriptUpdates
 //@   requires ts != nil && ts.archive != nil && ts.scriptUpdates != nil
+//@   loop 2: invariant forall K {at(ts.archive.Files,K)} :: lo(ts.archive.Files) <= K && K <= lo(ts.archive.Files) + rangeindex && at(ts.archive.Files,K).Name == name ==> updOK(sid(at(ts.archive.Files,K).Data), sid(content))
+//@   loop 2: after forall K {at(ts.archive.Files,K)} :: lo(ts.archive.Files) <= K && K < hi(ts.archive.Files) && at(ts.archive.Files,K).Name == name ==> updOK(sid(at(ts.archive.Files,K).Data), sid(content))
 //@   allowpanic
 //@   modifies H_S_txtar_File, bytes, fsExists, fsData, fsSize, fsBytes, fsWrites
 //@   at call os.WriteFile#1: requires sameStr(name, ts.file)
